@@ -247,6 +247,38 @@ fn enumerate(tier: Tier) -> Vec<Case> {
     out
 }
 
+/// ultra-long runs (past 2^16 and 2^17 updates): an arithmetic overflow of a narrowed counter is a panic under debug assertions.
+/// ints = [scalar, pattern, seed, len, shape]
+fn ultra_cases(tier: Tier) -> Vec<Case> {
+    let len = tier.pick(135_000usize, 1_100_000usize);
+    let mut out = vec![];
+    for n in [5usize, 16] {
+        for (w, spec) in unary_grid(n).into_iter().enumerate() {
+            if n == 16 && spec.own_windows().is_empty() {
+                continue;
+            }
+            out.push(Case { spec: Some(spec), ints: vec![((w + n) % 2) as i64, (w % 3) as i64, (0xC15_0000 + 41 * w + n) as i64, len as i64, (w % 4) as i64], a: Rat(1, 1), ..Default::default() });
+        }
+    }
+    out
+}
+fn ultra_check(profile: &'static str) -> impl Fn(&Case) -> Verdict + Send + Sync {
+    let inner = check(profile);
+    move |case: &Case| {
+        let spec = case.spec();
+        let (seed, len, shape) = (case.ints[2] as u64, case.ints[3] as usize, case.ints[4]);
+        let positive = spec.needs_positive_input();
+        // f32 legs: |x| <= 2^15 as elsewhere in this property
+        let div = if case.ints[0] == 1 { 64 } else { 1 };
+        let ks: Vec<i64> = gen::ultra_stream(seed, len, shape).into_iter().map(|k| if positive { (k / div).abs().max(1) } else { k / div }).collect();
+        let full = Case { xs: gen::to_rats(&ks, Rat(1, 8)), ints: case.ints[..2].to_vec(), ..case.clone() };
+        match inner(&full) {
+            Verdict::Fail { sig, msg } => Verdict::Fail { sig, msg: format!("{msg} (stream: ultra_stream(seed {seed}, len {len}, shape {shape}){}, grid 1/8)", if div > 1 { " / 64" } else { "" }) },
+            v => v,
+        }
+    }
+}
+
 /// smallest window for which a view is free of *listed* findings (exclusion by construction in the chain generator)
 pub fn safe_min_window(name: &str) -> usize {
     match name {
@@ -389,6 +421,8 @@ pub fn clauses() -> Vec<Clause> {
     vec![
         Clause::enumerated("C15", "C15/enum/release", rule_enum, enumerate, check("release")).with_shard(1500),
         Clause::enumerated("C15", "C15/enum/relassert", rule_enum, enumerate, check("relassert")).with_profile("relassert").with_shard(1500),
+        Clause::enumerated("C15", "C15/ultra/release", "Enumerated: every view over Echo with the full secondary-parameter grid at N in {5, 16}, 135 000 values (thorough 1.1e6; past 2^16 and 2^17 updates) on the 1/8 grid, four stream shapes, f64 / f32 alternating. Oracle: no panic in update() or last().", ultra_cases, ultra_check("release")).with_shard(16),
+        Clause::enumerated("C15", "C15/ultra/relassert", "The same runs under debug assertions and overflow checks (an overflowing narrowed counter panics there).", ultra_cases, ultra_check("relassert")).with_profile("relassert").with_shard(16),
         Clause::generated("C15", "C15/chains/release", rule_chain, 6000, 200_000, chain_cases("release"), chain_check("release")).with_shard(500),
         Clause::generated("C15", "C15/chains/relassert", rule_chain, 6000, 200_000, chain_cases("relassert"), chain_check("relassert")).with_profile("relassert").with_shard(500),
     ]
